@@ -989,6 +989,14 @@ class _EvalBuilder(_Builder):
                     elif p_:
                         parts.append(("c", p_))
                 return ("fstr", tuple(parts))
+        if f[0] == "a" and f[1][0] == "c" and not kw and f[2] == "get" and len(args) == 2 and args[0][0] == "c" and args[1][0] != "c" \
+                and isinstance(f[1][1], HDict):
+            # table.get(<known key>, <symbolic default>)
+            try:
+                from .sym import const_or_name
+                return const_or_name(f[1][1][args[0][1]]) if args[0][1] in f[1][1] else args[1]
+            except Exception:
+                return s
         if f[0] == "a" and f[1][0] == "c" and not kw and all(a[0] == "c" for a in args):
             recv = f[1][1]
             if isinstance(recv, str) and f[2] in ("upper", "lower", "strip", "lstrip", "rstrip", "replace", "startswith", "endswith", "split"):
@@ -1161,7 +1169,7 @@ class _EvalBuilder(_Builder):
         if fn.decorator_list and any(ast.unparse(d).split("(")[0].split(".")[-1] not in ("staticmethod", "classmethod") for d in fn.decorator_list):
             return None
         n_stmts = sum(1 for _ in ast.walk(fn) if isinstance(_, ast.stmt))
-        if n_stmts > 40 or any(isinstance(x, (ast.Yield, ast.YieldFrom, ast.Await, ast.Try)) for x in ast.walk(fn)):
+        if n_stmts > 40 or any(isinstance(x, (ast.Yield, ast.YieldFrom, ast.Await)) for x in ast.walk(fn)):
             return None
         if fn.args.kwarg:
             return None
